@@ -1536,6 +1536,12 @@ def main(argv):
                 sys.stderr.write(f'translate_identify: FAIL: {path}:{r} [{fname}.v is not written]\n')
             continue
         ok[fname] = True
+        # regenerated on every run; the file on disk is replaced only when its content differs, so that an unchanged source does
+        # not force the proofs that depend on it to be recompiled
+        if os.path.exists(outs[fname]):
+            with open(outs[fname], 'r', encoding='utf-8') as fh:
+                if fh.read() == text:
+                    continue
         tmp = outs[fname] + '.tmp'
         with open(tmp, 'w', encoding='utf-8') as fh:
             fh.write(text)
